@@ -9,7 +9,7 @@ nothing outside the destination view is written."""
 import json, os
 import vlib
 import C13_gen as G
-from codec_common import compile_many, run_routed, correspond_with
+from codec_common import compile_many, run_routed, correspond_with, IO_LIBS, hexbytes
 
 SEL = {"bmp": 1, "bmprle": 1, "pnm": 2, "targa": 3}
 
@@ -108,18 +108,60 @@ def mono_variant(ctx):
     sf = "_swap_half_bytes( dst" not in sc
     return "gray1" + ("-" if rf or sf else "") + ("r" if rf else "") + ("s" if sf else "")
 
+# formats decoded by external libraries: (format variant, pixel, channels, bytes per channel, max value, harness selector)
+EXT = [("png", "gray8", 1, 1, 255, 1), ("png", "rgb8", 3, 1, 255, 1), ("png", "rgba8", 4, 1, 255, 1), ("png", "gray16", 1, 2, 65535, 1),
+       ("png", "gray1", 1, 1, 1, 1), ("png", "gray4", 1, 1, 15, 1),
+       ("png-adam7", "gray8", 1, 1, 255, 1), ("png-adam7", "rgb8", 3, 1, 255, 1), ("png-adam7", "rgba8", 4, 1, 255, 1),
+       ("tiff", "gray8", 1, 1, 255, 2), ("tiff", "rgb8", 3, 1, 255, 2), ("tiff-lzw", "rgb8", 3, 1, 255, 2), ("tiff-tile16", "gray8", 1, 1, 255, 2),
+       ("tiff-tile16", "rgb8", 3, 1, 255, 2), ("tiff-tile16-deflate", "rgb8", 3, 1, 255, 2),
+       ("tiff", "gray1", 1, 1, 1, 3), ("tiff", "gray4", 1, 1, 15, 3), ("tiff-tile16", "gray1", 1, 1, 1, 3), ("tiff-tile16", "gray4", 1, 1, 15, 3),
+       ("jpeg", "gray8", 1, 1, 255, 4), ("jpeg", "rgb8", 3, 1, 255, 4)]
+
+def gen_ext(ctx):
+    r, ops = ctx.rng, []
+    th = ctx.thorough()
+    hi = 5 if th else 4
+    big = [(9, 9), (17, 5), (20, 18)] + ([(33, 17), (40, 35)] if th else [])
+    for fmt, pix, nch, cb, maxv, sel in EXT:
+        def src(w, h): return hexbytes(b"".join(((1 + x + w * y + 40 * c + r.below(3)) % (maxv + 1)).to_bytes(cb, "big") for y in range(h) for x in range(w) for c in range(nch)))
+        head = "%s %s %d" % (fmt, pix, nch * cb)
+        for w in range(1, hi + 1):
+            for h in range(1, hi + 1):
+                hx = src(w, h)
+                ops.append("xcrop %s %d %d 0 0 0 0 %s" % (head, w, h, hx))
+                for (x, y, dx, dy) in rects(w, h): ops.append("xcrop %s %d %d %d %d %d %d %s" % (head, w, h, x, y, dx, dy, hx))
+                ops.append("xpaths %s %d %d %s" % (head, w, h, hx))
+                if w > 1: ops.append("xsmall %s %d %d %d %d 0 0 0 0 %s" % (head, w, h, w - 1, h, hx))
+                if h > 1: ops.append("xsmall %s %d %d %d %d 0 0 %d %d %s" % (head, w, h, w, h - 1, w, h, hx))
+        for (w, h) in big:        # tile edges, Adam7 passes, several strips: a seeded sample of the sub-rectangles
+            hx = src(w, h); rs = rects(w, h)
+            ops.append("xpaths %s %d %d %s" % (head, w, h, hx))
+            for _ in range(40 if th else 12):
+                x, y, dx, dy = r.choice(rs); ops.append("xcrop %s %d %d %d %d %d %d %s" % (head, w, h, x, y, dx, dy, hx))
+        if pix in ("gray8", "rgb8", "rgba8"):
+            for (w, h) in [(1, 1), (2, 1), (3, 2), (4, 4)]:
+                hx = src(w, h); rs = rects(w, h)
+                for k in KINDS:
+                    for (x, y, dx, dy) in [(0, 0, 0, 0), rs[-1], r.choice(rs)]:
+                        ops.append("xconv %s %d %d %s %d %d %d %d %s" % (head, w, h, k, x, y, dx, dy, hx))
+    return ops
+
 def route(op):
     f = op.split()[1]
+    if op[0] == "x": return "x%d" % next(s for (fm, px, n, cb, mv, s) in EXT if fm == f and px == op.split()[2])
     return "h1r" if f == "bmprle" else "h%d" % SEL[f]
 
-def specs(): return [dict(key="h%d" % n, src="harness/C13/main.cpp", sel=n) for n in (1, 2, 3)]
+def specs():
+    return [dict(key="h%d" % n, src="harness/C13/main.cpp", sel=n) for n in (1, 2, 3)] + \
+           [dict(key="x%d" % n, src="harness/C13/main_ext.cpp", sel=n, libs=IO_LIBS) for n in (1, 2, 3, 4)]
 
 def nontrivial(op):
     w = op.split()
+    if w[0] == "xcrop": return w[6:10] != ["0", "0", "0", "0"]
     return w[0] != "crop" or w[3:7] != ["0", "0", "0", "0"]
 
 ASSUME = [
-    "PNG / TIFF / JPEG are not covered by this check yet (external codecs: no byte-level model); the claim is for BMP, PNM and TARGA",
+    "PNG / TIFF / JPEG: external codecs, no byte-level model and no theorem; files written by the real writers (Adam7 png by libpng) are read in every way and the Spec is judged on the real output only: partial (external codec)",
     "valid files only: what the readers do on truncated / malformed input is C11's subject (the model here reads absent bytes as 0)",
     "the three devices are modelled by one byte-string device; that file name, FILE* and std::istream agree is established by the correspondence run on every generated input",
     "read_view / read_image / any_image / read_and_convert_view share the model's decoder; their agreement and the frame condition (nothing outside the destination view is written: canary frames) are established by the correspondence run",
@@ -135,19 +177,35 @@ def run(ctx, ops=None):
     bins = compile_many(ctx, specs())
     if "h1" in bins: bins["h1r"] = bins["h1"]      # same binary, own process: the forking RLE ops run beside the others
     tags = {}
+    given = ops
     if ops is None: ops, tags = gen_ops(ctx)
+    else: ops = [o for o in given if o[0] != "x"]
+    try:
+        any_fixed = "checked_bpp" in open(os.path.join(ctx.include, "boost/gil/extension/io/bmp/detail/read.hpp")).read()
+    except OSError: any_fixed = False
+    if any_fixed:
+        ctx.notes.append("tree under test carries the proposed any_image format checker fix: model variant pathsA")
+        ops = [("pathsA" + o[5:]) if o.startswith("paths ") else o for o in ops]
     mono = mono_variant(ctx)
     if mono != "gray1":
         ctx.notes.append("tree under test carries the proposed pnm gray1 fix: model variant %s" % mono)
         ops = [o.replace(" pnm gray1 ", " pnm %s " % mono, 1) for o in ops]
     impl = run_routed(ctx, bins, route, ops, args=(ctx.scratch,))
     impl, model = correspond_with(ctx, "drv_C13", ops, impl)
-    distinct = len({o for o in ops if nontrivial(o)})
+    # PNG / TIFF / JPEG: files written by the real writers (Adam7 png by libpng directly), judged only
+    xops = [o for o in (given or []) if o[0] == "x"] if given is not None else gen_ext(ctx)
+    if xops:
+        ximpl = run_routed(ctx, bins, route, xops, args=(ctx.scratch,))
+        keep = [i for i, o in enumerate(ximpl) if o != "codec-not-configured"]
+        xops, ximpl = [xops[i] for i in keep], [ximpl[i] for i in keep]
+        correspond_with(ctx, "drv_C13", xops, ximpl, label="ext", model=False)
+        ctx.log("ext: %d ops" % len(xops))
+    distinct = len({o for o in ops + xops if nontrivial(o)})
     samples = []
     for i in (0, len(ops) // 3, 2 * len(ops) // 3, len(ops) - 1):
         samples.append({"op": ops[i][:160], "impl": impl[i][:200], "model": model[i][:200]})
     kinds = {}
-    for o in ops: kinds[o.split()[0]] = kinds.get(o.split()[0], 0) + 1
+    for o in ops + xops: kinds[o.split()[0]] = kinds.get(o.split()[0], 0) + 1
     hi = 7 if ctx.thorough() else 5
     return vlib.finish(ctx, "proof", obligations, discharged,
         rule="files: %d variants (bmp 24/32 bottom-up, negative height, V4 header, OS/2 header, 1/4/8-bit palettes, RLE4/RLE8, 15/16-bit incl. bit fields; pnm P1..P6; targa raw/RLE x both origins x 24/32 x id field) "
